@@ -308,7 +308,8 @@ def body_match(I, X, mi=0, order=0, strict=True, merge=True, n=3, method="GET", 
                 for r in refs:
                     how, g = admits(r, cand, X, strict)
                     if how == "exact" and (r["methods"] is None or method in r["methods"]):
-                        a = {name: conv_value(conv, g[name]) for name, conv in r["groups"] if conv != "float"}
+                        # float arguments are not compared (float() of solver text is a real)
+                        a = {name: (conv_value(conv, g[name]) if conv != "float" else None) for name, conv in r["groups"]}
                         a.update(r["defaults"])
                         denotes.append((r["endpoint"], a))
             has_special = any(r["defaults"] or r["alias"] for r in refs)
@@ -328,7 +329,7 @@ def body_match(I, X, mi=0, order=0, strict=True, merge=True, n=3, method="GET", 
                                                               "query_args": "q=1"})
                     got2 = dict(I.dict_items(args2))
                     for ep, a in denotes:
-                        if ep == rule2.endpoint and len(a) == len(got2) and all(k in got2 and bool(peq(got2[k], v)) for k, v in a.items()):
+                        if ep == rule2.endpoint and len(a) == len(got2) and all(k in got2 and (v is None or bool(peq(got2[k], v))) for k, v in a.items()):
                             same = True
                     break
                 except RequestRedirect as e2:
